@@ -31,6 +31,9 @@ func init() {
 			ruleH1(r, le)
 			ruleAlwaysCancels(r, "X1")
 			ruleCtxParamUsed(r, "X2")
+			ruleNoRoundTripUnderConnLock(r, le, "X3")
+			ruleNoReentrantLock(r, le, "L2", "/iscp", "/wire", "/transport/reconnect", "/transport/multi", "/internal/segment")
+			r.borrow("C01", func() { ruleC01R5(r) }) // Close must not wait for a flush loop that is not running (stream waiting to be resumed)
 			ruleDrainBounds(r, "W3")
 		},
 	})
@@ -245,4 +248,371 @@ func ruleH1(r *Run, le *LockEngine) {
 		r.Check("no blocking channel operation under a mutex", true, "", "", "no blocking send, receive or select executes with a mutex held")
 	}
 	r.Stat("blocking_ops_under_lock", n)
+}
+
+// ruleNoChanBlockUnderCloseLocks: whatever a transport does while it holds a lock that its own Close needs has to end
+// without Close. A blocking channel operation there (a hand-over to a queue that may be full, even one that also
+// watches the transport's context) can only be released by Close — which is waiting for the lock.
+// Locks are followed across calls: a helper entered with the lock held, and a closure invoked by a helper under it,
+// inherit the lock.
+func ruleNoChanBlockUnderCloseLocks(r *Run, le *LockEngine, id string) {
+	r.Begin(id, "no channel wait under a lock that Close needs: in the transport packages no blocking send, receive or select (directly, or inside a helper such as writeOrDone) executes while a mutex is held that the same type's Close/CloseWithStatus acquires — locks held by callers and by helpers that invoke a closure count", 1)
+	p := r.P
+	inTransport := func(fn *ssa.Function) bool {
+		return fn != nil && strings.HasPrefix(fnPkgPath(fn), modPath+"/transport") && fn.Blocks != nil
+	}
+	// 1. locks Close takes
+	closeLocks := map[*types.Var]string{}
+	for _, fn := range p.Funcs {
+		if !inTransport(fn) || fn.Signature.Recv() == nil || !(fn.Name() == "Close" || fn.Name() == "CloseWithStatus") {
+			continue
+		}
+		seen := map[*ssa.Function]bool{}
+		var visit func(f *ssa.Function, d int)
+		visit = func(f *ssa.Function, d int) {
+			if f == nil || seen[f] || f.Blocks == nil || d > 2 {
+				return
+			}
+			seen[f] = true
+			allInstrs(f, func(ins ssa.Instruction) {
+				cc := instrCall(ins)
+				if cc == nil {
+					return
+				}
+				if op, recv := classifyLockCall(cc); op == opLock || op == opRLock {
+					if pt := pathOf(recv); pt != nil && pt.Last() != nil {
+						closeLocks[pt.Last()] = fnName(fn)
+					}
+					return
+				}
+				if _, isGo := ins.(*ssa.Go); !isGo {
+					if cal := cc.StaticCallee(); inTransport(cal) {
+						visit(cal, d+1)
+					}
+				}
+			})
+		}
+		visit(fn, 0)
+	}
+	r.Stat("locks_taken_by_close", len(closeLocks))
+	// 2. locks possibly held on entry
+	fieldsAt := func(ins ssa.Instruction) map[*types.Var]bool {
+		out := map[*types.Var]bool{}
+		fi := le.Info(ins.Parent())
+		for k := range le.HeldAt(ins) {
+			if f := fi.keyField[k]; f != nil {
+				out[f] = true
+			}
+		}
+		return out
+	}
+	memo := map[*ssa.Function]map[*types.Var]bool{}
+	busy := map[*ssa.Function]bool{}
+	var entryHeld func(fn *ssa.Function, depth int) map[*types.Var]bool
+	entryHeld = func(fn *ssa.Function, depth int) map[*types.Var]bool {
+		if m, ok := memo[fn]; ok {
+			return m
+		}
+		out := map[*types.Var]bool{}
+		if busy[fn] || depth > 5 {
+			return out
+		}
+		busy[fn] = true
+		defer func() { busy[fn] = false }()
+		add := func(m map[*types.Var]bool) {
+			for k := range m {
+				out[k] = true
+			}
+		}
+		at := func(site ssa.Instruction) {
+			if _, isGo := site.(*ssa.Go); isGo {
+				return
+			}
+			add(fieldsAt(site))
+			add(entryHeld(site.Parent(), depth+1))
+		}
+		for _, site := range p.staticCallSites(fn) {
+			at(site)
+		}
+		if fn.Parent() != nil {
+			if val, uses, ok := funcValueUses(fn); ok {
+				for _, u := range uses {
+					cc := instrCall(u)
+					if cc == nil {
+						continue
+					}
+					if _, isGo := u.(*ssa.Go); isGo {
+						continue
+					}
+					if cc.Value == val {
+						at(u) // called directly
+						continue
+					}
+					// handed to a helper that invokes it
+					if h := cc.StaticCallee(); h != nil && p.Analysed(h) {
+						for j, a := range cc.Args {
+							if a != val {
+								continue
+							}
+							if sites, okInv := paramInvocations(h, j); okInv {
+								at(u)
+								for _, s := range sites {
+									add(fieldsAt(s))
+								}
+								add(entryHeld(h, depth+1))
+							}
+						}
+					}
+				}
+			}
+		}
+		memo[fn] = out
+		return out
+	}
+	// 3. functions that may wait on a channel
+	blockMemo := map[*ssa.Function]int{} // 0 unknown, 1 no, 2 yes
+	var blocks func(fn *ssa.Function, depth int) bool
+	directBlock := func(ins ssa.Instruction) (bool, string) {
+		switch x := ins.(type) {
+		case *ssa.Send:
+			return true, "send"
+		case *ssa.Select:
+			if x.Blocking {
+				return true, "select without default"
+			}
+		case *ssa.UnOp:
+			if x.Op == token.ARROW {
+				if hasLeafPrefix(p.Leaves(x.X, provOpts{}), "call:time.") {
+					return false, "" // a timer: bounded
+				}
+				return true, "receive"
+			}
+		}
+		return false, ""
+	}
+	blocks = func(fn *ssa.Function, depth int) bool {
+		if fn == nil || fn.Blocks == nil || depth > 3 || !p.Analysed(fn) {
+			return false
+		}
+		if v := blockMemo[fn]; v != 0 {
+			return v == 2
+		}
+		blockMemo[fn] = 1
+		res := false
+		allInstrs(fn, func(ins ssa.Instruction) {
+			if res {
+				return
+			}
+			if b, _ := directBlock(ins); b {
+				res = true
+				return
+			}
+			if c, ok := ins.(*ssa.Call); ok {
+				if cal := c.Call.StaticCallee(); cal != nil && cal != fn && blocks(cal, depth+1) {
+					res = true
+				}
+			}
+		})
+		if res {
+			blockMemo[fn] = 2
+		}
+		return res
+	}
+	// 4. the sites
+	n := 0
+	for _, fn := range p.Funcs {
+		if !inTransport(fn) {
+			continue
+		}
+		name := fnName(fn)
+		k := 0
+		allInstrs(fn, func(ins ssa.Instruction) {
+			is, what := directBlock(ins)
+			if !is {
+				if c, ok := ins.(*ssa.Call); ok {
+					if cal := c.Call.StaticCallee(); cal != nil && !inTransport(cal) && blocks(cal, 0) {
+						is, what = true, "call of "+fnName(cal)
+					}
+				}
+			}
+			if !is {
+				return
+			}
+			k++
+			n++
+			held := fieldsAt(ins)
+			for f := range entryHeld(fn, 0) {
+				held[f] = true
+			}
+			bad := ""
+			for f := range held {
+				if by, isClose := closeLocks[f]; isClose {
+					bad = f.Name() + " (taken by " + by + ")"
+				}
+			}
+			r.Check(fmt.Sprintf("%s channel wait#%d outside Close's locks", name, k), bad == "", posOf(p, ins), name, what+" while "+bad+" is held: with the other side gone only Close can end the wait, and Close is waiting for the lock")
+		})
+	}
+	if n == 0 {
+		r.Check("channel waits in the transports", true, "", "", "no blocking channel operation in the transport packages")
+	}
+}
+
+// ruleNoRoundTripUnderConnLock: a request/response exchange with the broker lasts as long as the broker likes. Made
+// while a mutex of the connection is held, it makes every other call that needs the mutex (the next open or metadata
+// request, the redial, Close) wait for the broker too — and a goroutine parked in Mutex.Lock does not look at its
+// context. The wire connection is taken under the lock; the exchange happens outside.
+func ruleNoRoundTripUnderConnLock(r *Run, le *LockEngine, id string) {
+	r.Begin(id, "no request round trip under a connection mutex: in package iscp no call of a wire.ClientConn method that waits for the broker's response (reaches sendRequest) is made while a mutex field of iscp.Conn is held", 4)
+	p := r.P
+	connT := r.named("/iscp", "Conn")
+	if connT == nil {
+		return
+	}
+	n := 0
+	for _, fn := range p.Funcs {
+		if fnPkgPath(fn) != modPath+"/iscp" || fn.Blocks == nil {
+			continue
+		}
+		name := fnName(fn)
+		fi := le.Info(fn)
+		k := 0
+		allInstrs(fn, func(ins ssa.Instruction) {
+			c, ok := ins.(*ssa.Call)
+			if !ok {
+				return
+			}
+			cal := c.Call.StaticCallee()
+			if cal == nil || fnPkgPath(cal) != modPath+"/wire" || recvTypeName(cal) != "ClientConn" {
+				return
+			}
+			if !(cal.Name() == "sendRequest" || p.reachesCall(cal, 2, "/wire.ClientConn.sendRequest")) {
+				return
+			}
+			k++
+			n++
+			bad := ""
+			for key := range le.HeldAt(c) {
+				if f := fi.keyField[key]; f != nil {
+					if owner := connT.Underlying().(*types.Struct); owner != nil {
+						for i := 0; i < owner.NumFields(); i++ {
+							if owner.Field(i) == f {
+								bad = f.Name()
+							}
+						}
+					}
+				}
+			}
+			r.Check(fmt.Sprintf("%s round trip#%d %s outside the connection's mutexes", name, k, cal.Name()), bad == "", posOf(p, c), name, "the exchange with the broker runs while Conn."+bad+" is held: a second request is not even sent before the first is answered, its caller waits in Mutex.Lock past its own deadline, and a redial or Close waits with it")
+		})
+	}
+	if n == 0 {
+		r.Undecided("round trips", "no call of a waiting wire request found in package iscp")
+	}
+}
+
+// ruleNoReentrantLock: sync mutexes are not re-entrant, and a read lock taken twice by one goroutine deadlocks as soon
+// as a writer arrives in between (RWMutex queues new readers behind a waiting writer). At every call made with a lock
+// held, the callee (followed two calls deep) does not acquire the same lock again before releasing it.
+func ruleNoReentrantLock(r *Run, le *LockEngine, id string, pkgs ...string) {
+	r.Begin(id, "no lock is taken twice by one goroutine: at every static call made while a mutex is held, the callee does not lock or read-lock that same mutex (the lock's path is translated from the callee's parameters to the call site)", 20)
+	p := r.P
+	inPk := func(fn *ssa.Function) bool {
+		for _, pk := range pkgs {
+			if fnPkgPath(fn) == modPath+pk {
+				return true
+			}
+		}
+		return false
+	}
+	// acquisitions of fn in its own terms (first acquisition of each key, not preceded by a release of it)
+	type acq struct {
+		key string
+		at  ssa.Instruction
+	}
+	var acquires func(fn *ssa.Function, depth int, seen map[*ssa.Function]bool) []acq
+	acquires = func(fn *ssa.Function, depth int, seen map[*ssa.Function]bool) []acq {
+		if fn == nil || fn.Blocks == nil || seen[fn] || depth > 2 || !p.Analysed(fn) {
+			return nil
+		}
+		seen[fn] = true
+		var out []acq
+		allInstrs(fn, func(ins ssa.Instruction) {
+			cc := instrCall(ins)
+			if cc == nil {
+				return
+			}
+			if _, isGo := ins.(*ssa.Go); isGo {
+				return
+			}
+			if op, recv := classifyLockCall(cc); op == opLock || op == opRLock {
+				if _, isDefer := ins.(*ssa.Defer); isDefer {
+					return
+				}
+				if pt := pathOf(recv); pt != nil {
+					// only when the function does not already hold it itself (its own re-acquisition is L1's business)
+					k := le.Aliases.canonKey(pt)
+					if _, held := le.HeldAt(ins)[k]; !held {
+						out = append(out, acq{k, ins})
+					}
+				}
+				return
+			}
+			if _, isCall := ins.(*ssa.Call); isCall {
+				if cal := cc.StaticCallee(); cal != nil && cal != fn {
+					for _, a := range acquires(cal, depth+1, seen) {
+						if tk, ok := translateKey(cal, a.key, cc.Args); ok {
+							// the callee's acquisition counts only if this function does not hold the lock at the call (then it
+							// is reported here one level up); translate to this function's terms
+							out = append(out, acq{tk, a.at})
+						}
+					}
+				}
+			}
+		})
+		return out
+	}
+	n := 0
+	for _, fn := range p.Funcs {
+		if !inPk(fn) || fn.Blocks == nil {
+			continue
+		}
+		name := fnName(fn)
+		k := 0
+		allInstrs(fn, func(ins ssa.Instruction) {
+			c, ok := ins.(*ssa.Call)
+			if !ok {
+				return
+			}
+			held := le.MayHeldAt(c) // on some path: a lock taken in one branch and released by defer is still held here
+			if len(held) == 0 {
+				return
+			}
+			cal := c.Call.StaticCallee()
+			if cal == nil || !p.Analysed(cal) || cal.Blocks == nil {
+				return
+			}
+			if op, _ := classifyLockCall(&c.Call); op != opNone {
+				return
+			}
+			k++
+			n++
+			bad := ""
+			var at ssa.Instruction
+			for _, a := range acquires(cal, 0, map[*ssa.Function]bool{}) {
+				if tk, okT := translateKey(cal, a.key, c.Call.Args); okT {
+					if _, isHeld := held[tk]; isHeld {
+						bad, at = tk, a.at
+					}
+				}
+			}
+			where := posOf(p, c)
+			detail := "the callee takes none of the locks held here"
+			if bad != "" {
+				detail = fnName(cal) + " acquires " + bad + " at " + posOf(p, at) + " while the caller already holds it: a second Lock blocks for ever; a second RLock blocks as soon as a writer is waiting"
+			}
+			r.Check(fmt.Sprintf("%s call#%d under lock does not re-acquire", name, k), bad == "", where, name, detail)
+		})
+	}
+	r.Stat("calls_under_lock", n)
 }
